@@ -5,6 +5,8 @@ schedulers is C20 (`respects_windows_rr`, `pieces_concatenate`, `conservation_rr
 ledger of the server is validated against these definitions by the server-level stream.
 -/
 import FpVerif.Model.Flow
+import FpVerif.Model.H2Tx
+import FpVerif.Model.H2Rx
 set_option linter.unusedSimpArgs false
 namespace Fp.C12
 open Fp Fp.Flow Fp.Gen.Flow
@@ -186,5 +188,96 @@ theorem no_leak (w0 : Int) (h0 : 0 ≤ w0 ∧ w0 ≤ 2147483647) (ops : List FOp
 /-- non-vacuity: 65535-byte window, 5000 bytes received and consumed in two steps -/
 example : (({ f := { avail := 65535 } } : Ledger).run [.take 3000, .add 3000, .take 2000, .add 2000]).map
     (fun l => (l.f.avail, l.f.unsent, l.returned)) = some (65535, 0, 5000) := by decide
+
+/-! ### the client transport's body writer (transport.go: writeRequestBody / awaitFlowControl), model `H2Tx` -/
+
+def dataBytes : List H2Tx.Out → Nat
+  | [] => 0
+  | .data len _ :: r => len + dataBytes r
+  | _ :: r => dataBytes r
+
+/-- CLIENT SEND SAFETY, for one run of the writer from any state (any windows, also negative ones after a
+SETTINGS_INITIAL_WINDOW_SIZE decrease, any max frame size, any amount of queued body): the DATA bytes it releases
+never exceed what the stream AND the connection window allow at that moment, both windows are charged exactly
+those bytes, the queued body shrinks by exactly those bytes, and no frame is larger than the peer's max frame size. -/
+theorem tx_window_safe : ∀ (fuel : Nat) (t : H2Tx.Tx), 0 < t.maxFrame →
+    ((dataBytes (H2Tx.drain fuel t).2 : Nat) : Int) ≤ max 0 (H2Tx.available t) ∧
+    (H2Tx.drain fuel t).1.connFlow = t.connFlow - dataBytes (H2Tx.drain fuel t).2 ∧
+    (H2Tx.drain fuel t).1.streamFlow = t.streamFlow - dataBytes (H2Tx.drain fuel t).2 ∧
+    (H2Tx.drain fuel t).1.avail + (H2Tx.drain fuel t).1.remain + dataBytes (H2Tx.drain fuel t).2 = t.avail + t.remain ∧
+    (H2Tx.drain fuel t).1.maxFrame = t.maxFrame ∧
+    (∀ o ∈ (H2Tx.drain fuel t).2, ∀ len es, o = .data len es → (len : Int) ≤ t.maxFrame) := by
+  intro fuel
+  induction fuel with
+  | zero => intro t _; simp [H2Tx.drain, dataBytes]; omega
+  | succ fuel ih =>
+    intro t hm
+    unfold H2Tx.drain
+    split
+    · simp [dataBytes]; omega
+    · split
+      · rename_i hrem
+        split
+        · simp [dataBytes]; omega
+        · rename_i ha
+          have htake : 0 < H2Tx.takeOf t ∧ H2Tx.takeOf t ≤ H2Tx.available t ∧ H2Tx.takeOf t ≤ t.remain ∧
+              H2Tx.takeOf t ≤ t.maxFrame := by
+            unfold H2Tx.takeOf; simp only; split <;> split <;> omega
+          generalize H2Tx.takeOf t = take at htake ⊢
+          obtain ⟨i1, i2, i3, i4, i5, i6⟩ := ih (H2Tx.sent t take) (by simpa [H2Tx.sent] using hm)
+          have hav : H2Tx.available (H2Tx.sent t take) = H2Tx.available t - take := by
+            unfold H2Tx.available H2Tx.sent; simp only; split <;> split <;> omega
+          rw [hav] at i1
+          have htn : ((take.toNat : Nat) : Int) = take := Int.toNat_of_nonneg (by omega)
+          have e1 : (H2Tx.sent t take).connFlow = t.connFlow - take := rfl
+          have e2 : (H2Tx.sent t take).streamFlow = t.streamFlow - take := rfl
+          have e3 : (H2Tx.sent t take).avail = t.avail := rfl
+          have e4 : (H2Tx.sent t take).remain = t.remain - take.toNat := rfl
+          have e5 : (H2Tx.sent t take).maxFrame = t.maxFrame := rfl
+          rw [e1] at i2; rw [e2] at i3; rw [e3, e4] at i4; rw [e5] at i5 i6
+          refine ⟨?_, ?_, ?_, ?_, i5, ?_⟩
+          · simp only [dataBytes]; push_cast; rw [htn]; omega
+          · simp only [dataBytes]; push_cast; rw [htn, i2]; omega
+          · simp only [dataBytes]; push_cast; rw [htn, i3]; omega
+          · simp only [dataBytes]
+            have : take.toNat ≤ t.remain := by omega
+            omega
+          · intro o ho len es he
+            simp only [List.mem_cons] at ho
+            rcases ho with rfl | ho
+            · cases he; rw [htn]; exact htake.2.2.2
+            · exact i6 o ho len es he
+      · split
+        · simp [dataBytes, H2Tx.finish]; omega
+        · split
+          · obtain ⟨i1, i2, i3, i4, i5, i6⟩ := ih (H2Tx.readChunk t) hm
+            have e0 : H2Tx.available (H2Tx.readChunk t) = H2Tx.available t := rfl
+            have e1 : (H2Tx.readChunk t).connFlow = t.connFlow := rfl
+            have e2 : (H2Tx.readChunk t).streamFlow = t.streamFlow := rfl
+            have e3 : (H2Tx.readChunk t).avail = t.avail - min t.scratch t.avail := rfl
+            have e4 : (H2Tx.readChunk t).remain = min t.scratch t.avail := rfl
+            have e5 : (H2Tx.readChunk t).maxFrame = t.maxFrame := rfl
+            rw [e0] at i1; rw [e1] at i2; rw [e2] at i3; rw [e3, e4] at i4; rw [e5] at i5 i6
+            refine ⟨i1, i2, i3, ?_, i5, i6⟩
+            have : min t.scratch t.avail ≤ t.avail := Nat.min_le_right _ _
+            omega
+          · split
+            · exact ih (H2Tx.sawEnd t) hm
+            · simp [dataBytes]; omega
+
+/-- CLIENT SEND PROGRESS: the writer stops with bytes in hand only when a window is closed -/
+theorem tx_blocked_only_by_window (fuel : Nat) (t : H2Tx.Tx) (hm : 0 < t.maxFrame) (hr : 0 < t.remain)
+    (ha : 0 < H2Tx.available t) (hd : t.done = false) : (H2Tx.drain (fuel + 1) t).2 ≠ [] := by
+  unfold H2Tx.drain
+  simp only [hd, Bool.false_eq_true, if_false, hr, gt_iff_lt, if_true]
+  split
+  · omega
+  · simp
+
+/-- non-vacuity: a 40000-byte body against a 20000-byte stream window and 16384-byte frames: 16384 + 3616 go out,
+the rest waits; a SETTINGS change that re-opens the window releases it -/
+example : (H2Tx.run { streamFlow := 20000, initialWindow := 20000 } [.body 40000, .bodyEOF, .setting 4 65535]).map
+    (fun os => os.map fun o => match o with | .data n e => (n, e) | _ => (0, false)) =
+    [[(16384, false), (3616, false)], [], [(12768, false), (7232, false), (0, true)]] := by decide
 
 end Fp.C12
